@@ -21,7 +21,7 @@ package ast
 //@ typeinv (n *CallExpression) = nnx(n.Function) && wfx(n.Callee) && wfx(n.ChainCallee) && wfxs(n.Arguments)
 //@ typeinv (n *LetStatement) = wfx(n.Value) && (evalphase() ==> n.Name != nil)
 //@ typeinv (n *AssignExpression) = wfx(n.Value) && (evalphase() ==> n.Name != nil)
-//@ typeinv (n *IndexExpression) = wfx(n.Left) && wfx(n.Index) && wfx(n.Value) && wfx(n.Callee) && (is(n.Left, "*Identifier") ==> unbox(n.Left, "*Identifier").OriginalCallee != nil)
+//@ typeinv (n *IndexExpression) = nnx(n.Left) && wfx(n.Index) && wfx(n.Value) && wfx(n.Callee) && (is(n.Left, "*Identifier") ==> unbox(n.Left, "*Identifier").OriginalCallee != nil)
 //@ typeinv (n *InfixExpression) = wfx(n.Left) && wfx(n.Right)
 //@ typeinv (n *PrefixExpression) = wfx(n.Right)
 //@ typeinv (n *ReturnStatement) = wfx(n.ReturnValue)
